@@ -52,6 +52,8 @@ def run(F, rep, tier):
     driver_guard_rule(F, rep, T)
     driver_decision_rule(F, rep, T)
     lexer_mode_rule(F, rep)
+    char_class_rule(F, rep)
+    binary_action_rule(F, rep)
     a = lalr.build_lalr(g)
     actions, conflicts = lalr.resolve_actions(a)
     info, mism = lalr.compare(a, actions, T)
@@ -627,3 +629,108 @@ def lexer_mode_rule(F, rep):
                           % (bad[0][0], bad[0][1].split("::")[-1], f), "feel-parser/src/lexer.rs:%s" % bad[0][0])
         else:
             rep.ok(rid, key, "%d branch(es) selected by the flag, each clears it" % len(branches))
+
+
+# DMN 1.3, 10.3.1.2, grammar rules 61 (white space) and 62 (vertical space)
+VERTICAL_SPACE = set(range(0x0A, 0x0E))
+WHITE_SPACE = VERTICAL_SPACE | {0x09, 0x20, 0x85, 0xA0, 0x1680, 0x180E, 0x2028, 0x2029, 0x202F, 0x205F, 0x3000, 0xFEFF} | set(range(0x2000, 0x200C))
+CHAR_CLASSES = {"is_whitespace": WHITE_SPACE, "is_vertical_space": VERTICAL_SPACE}
+
+
+def char_class_rule(F, rep):
+    """R06.8: 'white space between tokens does not change the tree' presupposes that the lexer's notion of white space is the grammar's. The character
+    sets of is_whitespace / is_vertical_space are read off their patterns (literals, ranges, calls to each other) and compared with grammar rules 61/62;
+    delegating to char::is_whitespace (Unicode White_Space, which lacks U+180E, U+200B and U+FEFF) is not the same set."""
+    rid = rep.rule("R06.8", "the lexer's white-space and vertical-space character classes are exactly those of FEEL grammar rules 61 and 62")
+    LEX = "dmntk_feel_parser::lexer::"
+
+    def charset(name, stack=()):
+        h = F.hir.get(LEX + name)
+        if h is None or name in stack:
+            return None, "function %s not found" % name
+        chars = set()
+        problems = []
+        for m, _ in find_hir(h["body"], lambda x: x.get("k") == "Match"):
+            for arm in m["arms"]:
+                truthy = strip(arm["b"]).get("k") == "Lit" and strip(arm["b"]).get("v") is True
+                if not truthy:
+                    continue
+
+                def pat(p):
+                    k = p.get("k")
+                    if k == "Or":
+                        for q in p["ps"]:
+                            pat(q)
+                    elif k == "Lit" and p.get("lit") == "char":
+                        chars.add(ord(p["v"]))
+                    elif k == "Range" and p.get("lo", {}).get("lit") == "char" and p.get("hi", {}).get("lit") == "char":
+                        hi = ord(p["hi"]["v"]) + (1 if p.get("end") == "Included" else 0)
+                        chars.update(range(ord(p["lo"]["v"]), hi))
+                    elif k in ("Wild", "Bind"):
+                        problems.append("a catch-all arm answers true")
+                    else:
+                        problems.append("pattern %s not understood" % k)
+                pat(arm["p"])
+        for c, _ in find_hir(h["body"], lambda x: x.get("k") in ("Call", "MethodCall") and x.get("callee")):
+            cal = c["callee"]
+            if cal.startswith(LEX) and cal[len(LEX):] in CHAR_CLASSES:
+                sub, pr = charset(cal[len(LEX):], stack + (name,))
+                if sub is None:
+                    problems.append(pr)
+                else:
+                    chars |= sub
+            elif "char::methods" in cal or cal.startswith("core::char") or "unicode" in cal:
+                problems.append("delegates to %s (Unicode property, not the grammar's set)" % cal.split("::")[-1])
+        if problems:
+            return None, "; ".join(problems)
+        return chars, None
+    for name, want in CHAR_CLASSES.items():
+        got, pr = charset(name)
+        key = "class:%s" % name
+        if got is None:
+            rep.violation(rid, key, "%s: %s" % (name, pr), "feel-parser/src/lexer.rs")
+        elif got != want:
+            rep.violation(rid, key, "%s accepts %s and misses %s compared with the grammar" % (name, ["U+%04X" % c for c in sorted(got - want)][:8], ["U+%04X" % c for c in sorted(want - got)][:8]),
+                          "feel-parser/src/lexer.rs")
+        else:
+            rep.ok(rid, key, "%d characters, as in the grammar" % len(got))
+
+
+BINARY_ACTIONS = ("addition", "subtraction", "multiplication", "division", "exponentiation", "conjunction", "disjunction")
+
+
+def binary_action_rule(F, rep):
+    """R06.9: the tree for `a op b` is decided by the tables alone (R06.1/R06.2) only if the reduce action of a binary operator does nothing but
+    combine the two nodes it pops: exactly one push, of the operator's node, whose operands are the popped nodes themselves - no re-association,
+    no look into the operands."""
+    rid = rep.rule("R06.9", "reduce actions of the binary operators push exactly one node built directly from the two popped nodes (no restructuring of operands)")
+    impl_prefix = "<dmntk_feel_parser::parser::Parser<'parser> as dmntk_feel_parser::lalr::ReduceActions>::action_"
+    n = 0
+    for a in BINARY_ACTIONS:
+        h = F.hir.get(impl_prefix + a)
+        if h is None:
+            rep.missing_anchor(rid, "action_%s" % a)
+            continue
+        n += 1
+        pushes = pop_provenance(h, F)
+        key = "binary:%s" % a
+        probs = []
+        if len(pushes) != 1:
+            probs.append("%d pushes onto the node stack (expected one)" % len(pushes))
+        # constructors applied to AstNode values outside the single push: nested node construction / pattern matching on operands
+        bodies = [h["body"]] + [F.hir[c["callee"]]["body"] for c, _ in find_hir(h["body"], lambda x: x.get("k") in ("MethodCall", "Call") and (x.get("callee") or "") in F.hir
+                                                                                 and re.match(r"^dmntk_feel_parser::parser::Parser::", x.get("callee") or ""))]
+        ctor_calls = [c for b2 in bodies for c, _ in find_hir(b2, lambda x: x.get("k") == "Call" and (x.get("callee") or "").startswith("dmntk_feel::ast::AstNode::") and "Ctor" in (x.get("dk") or ""))]
+        node_pats = [p for b2 in bodies for p, _ in find_hir(b2, lambda x: x.get("k") in ("TupleStruct", "Struct") and "l" not in x and (x.get("path") or "").startswith("dmntk_feel::ast::AstNode::"))]
+        if len(ctor_calls) > 1:
+            probs.append("%d AstNode constructions (expected one)" % len(ctor_calls))
+        if node_pats:
+            probs.append("the action inspects its operands (%s): the shape of the result would depend on the operands, not only on the tables" % node_pats[0].get("path", "").split("::")[-1])
+        loops = [l for b2 in bodies for l, _ in find_hir(b2, lambda x: x.get("k") == "Loop")]
+        if loops:
+            probs.append("the action contains a loop")
+        if probs:
+            rep.violation(rid, key, "action_%s: %s" % (a, "; ".join(probs)), "%s:%s" % (h["file"], h["line"]))
+        else:
+            rep.ok(rid, key, "one push of one node built from the two pops")
+    rep.floor(rid, "binary operator actions", n, 7)
